@@ -11,4 +11,5 @@ def run(ctx):
                 "and the session parameters. Regeneration: drf_properties.h5 is deleted and recreate_properties_file is pointed at "
                 "a view of the channel holding exactly one data file (each file in turn), after which bounds, reads and vector "
                 "reads are repeated and a new session with the original parameters is opened",
-           regen=ctx.pick(3, 8), bad_rate=0.03, empty_rate=0.0, observe_pairs=12, nvec=3)
+           regen=ctx.pick(3, 8), bad_rate=0.03, empty_rate=0.0, observe_pairs=12, nvec=3,
+           extra=lambda c, drf: cc.refusal_histories(c, drf, c.pick(12, 300)))
